@@ -28,6 +28,7 @@ type Event struct {
 	Args   []string
 	Dir    string
 	At     sched.Stamp
+	Tid    string // id of the scheduler thread that performed the operation (attribution of signals to calls)
 }
 
 // Proc is a simulated process.
@@ -43,6 +44,11 @@ type Proc struct {
 	Sig       int           // terminating signal, 0 if exited
 	OnTerm    func(p *Proc) // reaction to SIGTERM, runs on its own thread; nil = default action (die by SIGTERM)
 	Data      any
+	// Doomed: a SIGKILL has been delivered to the process while it was alive (it is dead, or - with
+	// Program.AsyncKill - will die at a later step). DoomStep is the step of that kill(2).
+	Doomed    bool
+	DoomStep  int
+	asyncKill bool
 	obj       sched.Obj
 	k         *Kernel
 }
@@ -58,6 +64,10 @@ type Program struct {
 	Main func(p *Proc)
 	// OnTerm is the SIGTERM reaction (nil: die by the signal).
 	OnTerm func(p *Proc)
+	// AsyncKill (opt-in): SIGKILL does not take effect inside kill(2) but at a later step of its own
+	// thread "sigkill:<pid>", as on a real kernel where the victim has to be scheduled to die. Forked
+	// children inherit it. Default (false): the process is dead when kill(2) returns.
+	AsyncKill bool
 }
 
 // Kernel is the simulated process table of one execution.
@@ -67,6 +77,7 @@ type Kernel struct {
 	Programs map[string]*Program
 	Log      []Event
 	epoch    uint64
+	tab      sched.Obj // the process table as a shared object: touched by exec and fork
 }
 
 var kern *Kernel
@@ -87,6 +98,9 @@ func (k *Kernel) log(ev Event) {
 	ev.Step = sched.StepNo()
 	ev.TimeNs = sched.NowNs()
 	ev.At = sched.StampNow()
+	if t := sched.Me(); t != nil {
+		ev.Tid = t.ID
+	}
 	k.Log = append(k.Log, ev)
 	sched.Record(fmt.Sprintf("k:%s:%d:%d:%d", ev.Kind, ev.Pid, ev.Sig, ev.Code))
 }
@@ -126,8 +140,11 @@ func (p *Proc) Die(sig int) {
 func (p *Proc) Fork(path string, main func(c *Proc), onTerm func(c *Proc)) *Proc {
 	k := p.k
 	k.nextPid++
-	c := &Proc{Pid: k.nextPid, Pgid: p.Pgid, Path: path, Alive: true, OnTerm: onTerm, k: k, Env: p.Env, Dir: p.Dir}
+	c := &Proc{Pid: k.nextPid, Pgid: p.Pgid, Path: path, Alive: true, OnTerm: onTerm, k: k, Env: p.Env, Dir: p.Dir, asyncKill: p.asyncKill}
 	k.Procs[c.Pid] = c
+	sched.Touch(&k.tab, 26)
+	sched.Touch(&p.obj, 23) // the group of p changes: visible to ObserveGroup readers
+	sched.Touch(&c.obj, 24)
 	k.log(Event{Kind: "fork", Pid: c.Pid, Path: path})
 	if main != nil {
 		sched.Go("proc:"+path, func() { main(c) })
@@ -149,8 +166,20 @@ func (k *Kernel) signalOne(p *Proc, sig int) {
 	if !p.Alive {
 		return
 	}
+	if p.Doomed && syscall.Signal(sig) != syscall.SIGKILL {
+		return // a pending SIGKILL wins: no handler runs, no other signal becomes the cause of death
+	}
 	switch syscall.Signal(sig) {
 	case syscall.SIGKILL:
+		if p.Doomed {
+			return
+		}
+		p.Doomed, p.DoomStep = true, sched.StepNo()
+		if p.asyncKill {
+			sched.Touch(&p.obj, 27)
+			sched.Go(fmt.Sprintf("sigkill:%d", p.Pid), func() { p.Die(sig) })
+			return
+		}
 		p.Die(sig)
 	case syscall.SIGTERM:
 		h := p.OnTerm
@@ -159,7 +188,7 @@ func (k *Kernel) signalOne(p *Proc, sig int) {
 			return
 		}
 		sched.Go(fmt.Sprintf("sigterm:%d", p.Pid), func() {
-			if p.Alive {
+			if p.Alive && !p.Doomed {
 				h(p)
 			}
 		})
@@ -215,6 +244,40 @@ func (k *Kernel) GroupAlive(pgid int) bool {
 		}
 	}
 	return false
+}
+
+// Observe folds a read of the process state (Alive, Reaped, Code, Sig) into the causal chain of the
+// running thread, so that "read before the exit" and "read after the exit" are different states for
+// the happens-before cache. Harness oracles call it when they snapshot a process.
+func (p *Proc) Observe() { sched.Observe(&p.obj) }
+
+// ObserveTable folds a read of the process table (which pids exist) into the running thread's chain.
+func (k *Kernel) ObserveTable() { sched.Observe(&k.tab) }
+
+// ObserveGroup is Observe for every member of a process group (in pid order).
+func (k *Kernel) ObserveGroup(pgid int) {
+	var members []*Proc
+	for _, p := range k.Procs {
+		if p.Pgid == pgid {
+			members = append(members, p)
+		}
+	}
+	sort.Slice(members, func(i, j int) bool { return members[i].Pid < members[j].Pid })
+	for _, p := range members {
+		sched.Observe(&p.obj)
+	}
+}
+
+// GroupSurvivors returns the pids of the group members that are alive and have no SIGKILL pending.
+func (k *Kernel) GroupSurvivors(pgid int) []int {
+	var out []int
+	for _, p := range k.Procs {
+		if p.Pgid == pgid && p.Alive && !p.Doomed {
+			out = append(out, p.Pid)
+		}
+	}
+	sort.Ints(out)
+	return out
 }
 
 // ---- os/exec surface used by the supervisor ----
@@ -275,12 +338,13 @@ func (c *Cmd) Start() error {
 	}
 	c.started = true
 	k.nextPid++
-	p := &Proc{Pid: k.nextPid, Path: c.Path, Args: c.Args, Env: append([]string{}, c.Env...), Dir: c.Dir, Alive: true, OnTerm: prog.OnTerm, k: k}
+	p := &Proc{Pid: k.nextPid, Path: c.Path, Args: c.Args, Env: append([]string{}, c.Env...), Dir: c.Dir, Alive: true, OnTerm: prog.OnTerm, k: k, asyncKill: prog.AsyncKill}
 	p.Pgid = p.Pid // Setpgid: own group (the supervisor always asks for it)
 	if c.SysProcAttr == nil || !c.SysProcAttr.Setpgid {
 		p.Pgid = 1
 	}
 	k.Procs[p.Pid] = p
+	sched.Touch(&k.tab, 25)
 	c.Process = &Process{Pid: p.Pid, p: p}
 	k.log(Event{Kind: "exec", Pid: p.Pid, Path: c.Path, Env: p.Env, Args: c.Args, Dir: c.Dir})
 	if prog.Main != nil {
